@@ -309,6 +309,12 @@ func (c *fnCtx) compSort(comp string) string {
 }
 
 func (c *fnCtx) havocComp(st *State, comp string) {
+	if strings.HasPrefix(comp, "$g:") {
+		n := c.fresh("g")
+		c.declare(n, "Int")
+		st.ghost[comp[3:]] = n
+		return
+	}
 	srt := c.compSort(comp)
 	c.comps[comp] = srt
 	n := smtName(c.fresh("H!" + comp))
